@@ -308,8 +308,14 @@ fn report(ctx: &Ctx, c: &Case, o: Outcome) -> bool {
         }
         Outcome::PanicAt(site, p) => {
             let class = if c.k == 0 { " (K = 0)" } else if c.m == 0 || c.n == 0 { " (empty operand)" } else { "" };
+            // prepack_a / prepack_b share their blocking arithmetic and do not depend on the kernel for K = 0
+            let sig = if site.starts_with("prepack") && c.k == 0 {
+                "gemm f32: prepack_a / prepack_b panic for a matrix with K = 0".to_string()
+            } else {
+                format!("gemm f32 kernel={}: {site} panics for valid inputs{class}", c.kernel)
+            };
             ctx.violation(
-                format!("gemm f32 kernel={}: {site} panics for valid inputs{class}", c.kernel),
+                sig,
                 c.json(),
                 format!("{site} panicked: {p}; case {}", c.json()),
             );
@@ -524,7 +530,7 @@ fn shapes(thorough: bool) -> (Vec<usize>, Vec<usize>) {
     if thorough {
         (vec![0, 1, 2, 3, 5, 6, 7, 8, 15, 16, 17, 31, 32, 33, 63, 64, 65, 127, 129, 257], vec![0, 1, 2, 3, 4, 7, 8, 9, 31, 32, 33, 255, 256, 257, 513])
     } else {
-        (vec![0, 1, 2, 3, 5, 7, 8, 15, 16, 17, 33, 65, 129], vec![0, 1, 2, 3, 4, 7, 8, 9, 31, 33, 257])
+        (vec![0, 1, 2, 3, 5, 6, 7, 8, 15, 16, 17, 31, 32, 33, 63, 65, 129], vec![0, 1, 2, 3, 4, 7, 8, 9, 31, 32, 33, 256, 257])
     }
 }
 
@@ -561,7 +567,7 @@ pub fn run(ctx: Ctx) -> ! {
     }
     let samples = Samples::new(24);
     let (mn, ks) = shapes(thorough);
-    let full_layout_limit: usize = if thorough { 1 << 21 } else { 1 << 17 };
+    let full_layout_limit: usize = if thorough { usize::MAX } else { 1 << 20 };
 
     // ---- box 1: shapes x strides x kernels x threading ----
     let mut shape_list: Vec<(usize, usize, usize)> = Vec::new();
